@@ -266,6 +266,20 @@ func r07_2(c *RC) {
 						problems = append(problems, "trial is on the wrong edge of CheckUserFromHint for its hintMatch argument")
 					}
 					hintSeen = true
+				case hintWrapperUserParam(x.Common().StaticCallee()) >= 0:
+					// a local wrapper: func userMatchesHint(u *user, nonce []byte) bool { return cipher.CheckUserFromHint([]byte(u.name), nonce) }
+					idx := hintWrapperUserParam(x.Common().StaticCallee())
+					if idx >= len(x.Common().Args) || x.Common().Args[idx] != t.user {
+						problems = append(problems, "the hint is checked for a different user than the one tried")
+					}
+					wantIdx := 1
+					if t.hintMatch {
+						wantIdx = 0
+					}
+					if e.Idx != wantIdx {
+						problems = append(problems, "trial is on the wrong edge of the hint check for its hintMatch argument")
+					}
+					hintSeen = true
 				case strings.HasSuffix(id, "userIDWasAttempted"):
 					if e.Idx != 1 {
 						problems = append(problems, "trial is on the true edge of userIDWasAttempted")
@@ -667,7 +681,7 @@ func r07_6(c *RC) {
 	}
 	for _, s := range p.FieldMethodCalls(un, "Store", "Swap", "CompareAndSwap") {
 		key := "store:Session.userName@" + fnName(s.Fn)
-		if s.Fn.Name() != "input" {
+		if ownerName(p, s.Fn) != "input" {
 			c.Bad(key, s.Pos(), "Session.userName stored in %s", fnName(s.Fn))
 			continue
 		}
@@ -696,7 +710,7 @@ func r07_6(c *RC) {
 	}
 	for _, s := range p.FieldMethodCalls(up, "Store", "Swap", "CompareAndSwap") {
 		key := "store:Session.userPolicy@" + fnName(s.Fn)
-		switch s.Fn.Name() {
+		switch ownerName(p, s.Fn) {
 		case "newSessionWithServerUserPolicy", "input":
 			c.OK(key, s.Pos(), "constructor / input")
 		default:
@@ -993,4 +1007,49 @@ func ruleSetUsersPublishes(c *RC) {
 			c.Undecided(key, r.Pos(), "SetUsers can return without publishing the new users. The only skip this check can accept is a whole-map comparison (reflect.DeepEqual / maps.EqualFunc with proto.Equal on the users argument itself); a hand-written comparison (per-user digests, 'every configured user is already compiled in', field-by-field tests) cannot be shown to notice every change - a removed user, a changed hashedPassword - and a reload it misses keeps a retired credential valid")
 		}
 	})
+}
+
+
+// hintWrapperUserParam: fn does nothing but return
+// cipher.CheckUserFromHint(<name of its parameter i>, <another parameter>);
+// returns i, or -1.
+func hintWrapperUserParam(fn *ssa.Function) int {
+	if fn == nil || fn.Blocks == nil || len(fn.Blocks) != 1 || relPkg(fn) != suPkg {
+		return -1
+	}
+	var call *ssa.Call
+	other := false
+	for _, in := range fn.Blocks[0].Instrs {
+		switch x := in.(type) {
+		case *ssa.Call:
+			if strings.HasSuffix(calleeID(x), "cipher.CheckUserFromHint") && call == nil {
+				call = x
+			} else {
+				other = true
+			}
+		case *ssa.Store, *ssa.Go, *ssa.Defer, *ssa.Send:
+			other = true
+		case *ssa.Return:
+			if call == nil || len(x.Results) != 1 || x.Results[0] != ssa.Value(call) {
+				other = true
+			}
+		}
+	}
+	if call == nil || other {
+		return -1
+	}
+	for _, l := range Leaves(call.Common().Args[0], nil) {
+		if u, ok := l.(*ssa.UnOp); ok {
+			if fa, ok := u.X.(*ssa.FieldAddr); ok {
+				if f, base := fieldOfAddr(fa); f != nil && f.Name() == "name" {
+					for i, prm := range fn.Params {
+						if ssa.Value(prm) == base {
+							return i
+						}
+					}
+				}
+			}
+		}
+	}
+	return -1
 }
